@@ -158,6 +158,9 @@ def run(prog, tier, repo):
             if not (('ErrorSet::report_' in nm) or ('StackableError::add_' in nm)):
                 continue
             n_sinks += 1
+            ns = sum(1 for i in res.instances if i.key.startswith(f'sink:{b.name}:{short}#')) + 1
+            if not any((o[0] in ('c', 'm')) and (taint.get(o[1].local) or taint.get(root_local(b, o[1].local)[0])) for o in t[3][1:]):
+                res.ok(f'sink:{b.name}:{short}#{ns}', b.loc(t[7]), 'no argument carries a hash iteration order')
             for k, o in enumerate(t[3][1:], 1):
                 if o[0] not in ('c', 'm'):
                     continue
